@@ -95,7 +95,6 @@ func MergeClearSign(w io.Writer, sig []byte, message io.Reader) error {
 	}}
 
 	out := bufio.NewWriter(w)
-	defer out.Flush()
 	readPipe, writePipe := io.Pipe()
 	done := make(chan error)
 	go func() {
@@ -111,8 +110,10 @@ func MergeClearSign(w io.Writer, sig []byte, message io.Reader) error {
 		return err
 	}
 
-	_, err = out.Write(sig)
-	return err
+	if _, err = out.Write(sig); err != nil {
+		return err
+	}
+	return out.Flush()
 }
 
 // Copy bytes, stopping before the signature block at the end
